@@ -40,13 +40,13 @@ func families(thorough bool) []family {
 		// every local binding form, expressions only
 		{name: "expr", cfg: gcfg{Names: ab, MaxW: 6 + d, MaxItems: 0, Let2: true, Dotimes: true, Macrolet: true, FunArg: true, Styles: 1}},
 		// top-level defun / set / defmacro / statements around the core expression grammar
-		{name: "top", cfg: gcfg{Names: ab, MaxW: 6 + d, MaxItems: 3, Styles: 1, GSet: true, Macros: true, Redefine: true, HoleMaxW: 3, FinalMaxW: 4}},
+		{name: "top", cfg: gcfg{Names: ab, MaxW: 6 + d, MaxItems: 3, Styles: 1, GSet: true, Macros: true, QTemplates: true, Redefine: true, HoleMaxW: 3, FinalMaxW: 4}},
 		// &key / &optional / &rest signatures and keyword calls
 		{name: "key", cfg: gcfg{Names: ab, MaxW: 5 + d, MaxItems: 2, Styles: 4, FixParam: true}},
 		// keywords, quoted symbols and quoted lists as data
 		{name: "data", cfg: gcfg{Names: ab, MaxW: 5 + d, MaxItems: 2, Styles: 1, Data: true}},
 		// packages, exports, use-package, qualified names, two files, macros; one global name
-		{name: "pkg", cfg: gcfg{Names: ab, MaxW: 8 + d, MaxItems: 6, HoleMaxW: 1, FinalMaxW: 2, Styles: 1, Packages: true, Files: true, Macros: true, FixParam: true, DefNames: 1}},
+		{name: "pkg", cfg: gcfg{Names: ab, MaxW: 8 + d, MaxItems: 6, HoleMaxW: 1, FinalMaxW: 2, Styles: 1, Packages: true, Files: true, Macros: true, QTemplates: true, FixParam: true, DefNames: 1}},
 		// the same with two global names
 		{name: "pkg2", cfg: gcfg{Names: ab, MaxW: 7 + d, MaxItems: 6, HoleMaxW: 1, FinalMaxW: 2, Styles: 1, Packages: true, Files: true, FixParam: true}},
 		// names of the minifier's own x<N> scheme in the source
@@ -455,6 +455,7 @@ func featureList(c gcfg) []string {
 	add(c.Styles > 1, "&key/&optional/&rest parameters and keyword calls")
 	add(c.GSet, "(set 'g v) assignment of top-level-set globals inside bodies")
 	add(c.Macros, "defmacro with quasiquote templates")
+	add(c.QTemplates, "templates that mention pkg:name (as variable and as function)")
 	add(c.Redefine, "top-level redefinition")
 	add(c.Packages, "in-package, export, use-package, pkg:name")
 	add(c.Files, "two-file sessions")
